@@ -129,14 +129,11 @@ class C16(Prop):
             if aligned:
                 d, sp, pn, pnlen, f = expected_calls[i]
                 ml = model_largest[(d, sp)]
-                if ambiguous.get((d, sp)):
-                    continue
-                if Q.decode_pn(ml, pn & ((1 << (8 * pnlen)) - 1), 8 * pnlen) != pn:
-                    # reordering/loss moved this packet outside the window its sender encoded for: it cannot be
-                    # decrypted on arrival, so "largest successfully processed" is no longer unambiguous for this space
-                    ambiguous[(d, sp)] = True
+                decodable = Q.decode_pn(ml, pn & ((1 << (8 * pnlen)) - 1), 8 * pnlen) == pn
+                if not decodable:
+                    # reordering/loss moved this packet outside the window its sender encoded for: no receiver can
+                    # decrypt it, and (RFC 9000 A.3: largest *successfully processed*) it must not move the reference
                     out.count("packet_outside_sender_window")
-                    continue
                 if (d, sp) != (side, space):
                     out.violate("largest-per-space-and-direction", "space-or-direction-confused",
                                 "call %d: real code used %s/%s, the captured packet is %s/%s" % (i, side, space, d, sp))
@@ -146,7 +143,8 @@ class C16(Prop):
                                     side, space, i, before, ml))
                 elif got != pn and pnlen == nbytes and trunc == pn & ((1 << (8 * nbytes)) - 1) and want == pn:
                     pass
-                model_largest[(d, sp)] = max(ml, pn)
+                if decodable:
+                    model_largest[(d, sp)] = max(ml, pn)
         if len(set(c[2] for c in calls)) > 1:
             out.count("reach:both_directions")
         if len(spec["conns"]) > 1:
